@@ -216,7 +216,10 @@ Section Derived.
     else
       e <- (if create then ret true else b_exists dst) ;;
       if negb e then raise ResourceNotFound
-      else move_dir copy src dst preserve_time.
+      else
+        i <- l_getinfo L _src ;;
+        if negb (i_isdir i) then raise DirectoryExpected
+        else move_dir copy src dst preserve_time.
 
   (* FS.move without the os.rename shortcut (supports_rename is false) *)
   Definition b_move (src dst : str) (overwrite preserve_time : bool) : M S unit :=
